@@ -187,6 +187,7 @@ class BranchMetadata:
         self.expiry = execution_timestamp + timeout
         self.context = template_context
         self.results = {}
+        self.ended = False  # Set once the execution has been ended.
 
 class StateEngine(object):
     def __init__(self, config):
@@ -708,6 +709,15 @@ class StateEngine(object):
                 """
                 if execution_arn in self.branch_metadata:
                     self.check_pending_results(execution_arn)
+
+                """
+                If results are still pending the metadata lingers so that the
+                stragglers can be recognised and dropped. Record that the
+                execution has ended so that the expiry "back stop" removes the
+                metadata rather than ending the execution a second time.
+                """
+                if execution_arn in self.branch_metadata:
+                    self.branch_metadata[execution_arn].ended = True
             else:
                 opentracing.tracer.active_span.set_tag("status", "SUCCEEDED")
                 execution_detail["status"] = "SUCCEEDED"
@@ -1239,6 +1249,15 @@ class StateEngine(object):
             """
             for results in branch_metadata.results.values():
                 results["terminated"] = "0:" + str(len(results["results"]))
+
+            """
+            If the execution has already ended (it failed whilst messages of
+            terminated branches were still outstanding) it must not be ended
+            again, we only need to force the clean up.
+            """
+            if branch_metadata.ended:
+                self.check_pending_results(execution_arn)
+                continue
 
             # Get state_machine from execution_arn for the end_execution call
             split = execution_arn.rpartition(':')
